@@ -32,6 +32,8 @@ class Z:
 
     @staticmethod
     def lift(o):
+        if isinstance(o, _np.ndarray) and o.ndim == 0:
+            o = o.item()
         if isinstance(o, Z):
             return o
         if isinstance(o, (bool, _np.bool_)):
@@ -303,6 +305,8 @@ class I(int):
 
     @staticmethod
     def lift(o):
+        if isinstance(o, _np.ndarray) and o.ndim == 0:
+            o = o.item()
         if isinstance(o, I):
             return o
         if isinstance(o, (bool, _np.bool_, int, _np.integer)):
